@@ -395,6 +395,36 @@ def run_check(spec, res, workdir):
             if len(res.samples) < 4 and ver.get("nontrivial"):
                 res.samples.append({k: inp[k] for k in inp if k not in ("go",)} | {"impl": inp.get("go")})
             analyze(spec, res, inp, ver)
+    # a broken tie is the trigger for a wider search for a concrete failing input: the thorough
+    # runs (other seeds, more cases), looking only at the oracles on the implementation's outputs
+    tie_broken = bool(res.diffs) or any(not ok for n, ok, _ in res.obligations if n.startswith(("facts:", "lean:", "theorem:")))
+    if tie_broken and not res.failing and tier == "quick" and spec.get("runs", {}).get("thorough"):
+        t_search = time.time()
+        for i, run in enumerate(spec["runs"]["thorough"]):
+            if time.time() - t_search > 120 or res.failing:
+                break
+            op, rargs = run[0], list(run[1])
+            opts = run[2] if len(run) > 2 else {}
+            if "-n" in rargs:
+                k = rargs.index("-n")
+                rargs[k + 1] = str(min(int(rargs[k + 1]), 40000))
+            rargs = ["-seed", str(seed * 7 + 13 + i)] + rargs
+            if opts.get("overlay"):
+                o = opts["overlay"]
+                lines, okh = run_overlay_test(o["pkg"], o["files"], o["test"], op, rargs, workdir, "search-%s-%d" % (op, i), log)
+            else:
+                lines, crashed, okh = run_harness(op, rargs, workdir, "search-%s-%d" % (op, i), log, timeout=300)
+            if not okh:
+                continue
+            outp = run_driver(lines, log)
+            if outp is None:
+                continue
+            keep_diffs = list(res.diffs)
+            for inp, ver in read_pairs(lines, outp):
+                if "error" not in ver:
+                    analyze(spec, res, inp, ver)
+            res.diffs = keep_diffs
+        log.append("failing-input search: %d found in %.0fs" % (len(res.failing), time.time() - t_search))
     if res.diffs:
         corr_ok = False
     res.oblige("correspondence:" + pid, corr_ok and not res.diffs,
